@@ -152,9 +152,18 @@ fn size_ladder_pass(prop: &str, protos: &[Proto], quick: bool) -> Acc {
         let mut acc = Acc::default();
         let key = domains::key_pool(*p)[0].clone();
         let seed = seed_for(*p);
-        for len in [*size - 1, *size, *size + 1, *size + 2] {
+        let mut texts: Vec<String> = [*size - 1, *size, *size + 1, *size + 2]
+            .iter()
             // printable ASCII with a period that is co-prime to 3 and 4, no two neighbours equal
-            let t: String = (0..len).map(|i| (b'!' + ((i * 7 + i / 89) % 89) as u8) as char).collect();
+            .map(|len| (0..*len).map(|i| (b'!' + ((i * 7 + i / 89) % 89) as u8) as char).collect())
+            .collect();
+        // JSON documents of that size class: an object with many small members (about size / 9 of them) and an
+        // object with one long member (what footers usually are; implementation guides suggest limits for them)
+        let n_members = (*size / 9).max(2);
+        texts.push(format!("{{{}}}", (0..n_members).map(|i| format!("\"k{}\":{}", i, i % 10)).collect::<Vec<_>>().join(",")));
+        texts.push(format!("{{\"kid\":\"{}\"}}", "k".repeat(*size)));
+        for t in texts {
+            let len = t.len();
             let (f, a) = if prop == "C05" { (Some(t.clone()), None) } else { (Some("f".to_string()), Some(t.clone())) };
             let case = IssueCase::new(*p, *l, &key, seed.as_deref(), "{\"data\":\"x\"}", &f, &a);
             let Some(token) = issue_with_control(&case, &mut acc) else { continue };
@@ -415,6 +424,27 @@ pub fn run_c04(tier: &str) -> i32 {
                     acc.choice_points += 1;
                 }
             }
+            // core layer: a wrong key, while the expected-footer argument's conversion opens the same token with
+            // the right key on the same thread (scratch state of the inner call must not serve the outer one)
+            if *l == Layer::Core {
+                for (kj, other) in pool.iter().enumerate().skip(1).take(3) {
+                    let _ = kj;
+                    let rf = crate::adapter::ReFooter { footer: fas[1].0.as_deref(), other: *p, other_key: &base_key.pk, other_text: &token };
+                    let o = crate::adapter::core_present_refooter(*p, &other.pk, &token, rf);
+                    acc.executions += 1;
+                    acc.impl_calls += 1;
+                    acc.choice_points += 1;
+                    if !o.is_err() {
+                        acc.violate(
+                            format!("C04|{}|core|reentrant-right-key-inside|accepted", p.name()),
+                            format!("a {} token presented under the wrong key {} while the expected-footer argument's conversion opens the same token under the right key on the same thread: {}", p.name(), other.label, o.short()),
+                            json!({"issue": case, "issued_token": token, "presentation": Presentation::of(&case, &token), "tag": "reentrant-footer-right-key"}),
+                        );
+                    } else {
+                        acc.bump("reentrant-right-key-inside:rejected");
+                    }
+                }
+            }
             if *p == Proto::V3P {
                 // same x, other parity prefix
                 for k in &pool {
@@ -669,6 +699,35 @@ pub fn run_c06(tier: &str) -> i32 {
     merged.merge(reuse_pass("C06", &protos));
     merged.merge(conflation_pass("C06", &protos));
     merged.merge(size_ladder_pass("C06", &protos, quick));
+    // large messages (an implementation may authenticate them along another path): the assertion binds there too -
+    // same-length neighbours, a prefix, none
+    {
+        let sizes: Vec<usize> = if quick { vec![131_072] } else { vec![65_536, 131_072, 200_000, 1_048_577] };
+        let units: Vec<(Proto, Layer, usize)> = units_proto_layer(&protos).into_iter().flat_map(|(p, l)| sizes.clone().into_iter().map(move |s| (p, l, s))).collect();
+        let accs = par_units(&units, |(p, l, size)| {
+            let mut acc = Acc::default();
+            let key = domains::key_pool(*p)[0].clone();
+            let seed = seed_for(*p);
+            let msg = domains::message(*size, 0);
+            for (a1, a2) in [("tenant-0001", "tenant-0002"), ("user:alice", "user:carol")] {
+                let case = IssueCase::new(*p, *l, &key, seed.as_deref(), &msg, &Some("f".into()), &Some(a1.to_string()));
+                let Some(token) = issue_with_control(&case, &mut acc) else { continue };
+                acc.choice_points += 1;
+                for (tag, asr, want) in [
+                    ("large-message:same-assertion", Some(a1.to_string()), Some(true)),
+                    ("large-message:same-length-other-assertion", Some(a2.to_string()), Some(false)),
+                    ("large-message:assertion-prefix", Some(a1[..a1.len() - 1].to_string()), Some(false)),
+                    ("large-message:no-assertion", None, Some(false)),
+                ] {
+                    let mut pres = Presentation::of(&case, &token);
+                    pres.assertion = asr;
+                    check("C06", tag, &case, &token, &pres, want, &mut acc);
+                }
+            }
+            acc
+        });
+        merged.merge(Acc::merge_all(accs));
+    }
     // bytes moved across the footer / assertion boundary of the pre-authentication encoding (see C03's
     // pae-resplice pass for the construction): assertion = A || le64(5) || "tail!" with |A| = s - 8; presenting
     // the token with the footer f || le64(5) || A (segment and expectation) and the assertion "tail!" shifts the
@@ -817,12 +876,14 @@ pub fn run_c07(tier: &str) -> i32 {
             let mi = c.choose("message", msgs.len());
             let fi = c.choose("footer", footers.len());
             let li = c.choose_cfg("presenting layer", 3);
+            // Y's implicit assertion (v3 / v4): none, or one that is supplied again when presenting
+            let ay: Option<String> = if y.has_assertion() && c.choose("assertion of Y", 2) == 1 { Some("{\"aud\":\"y\"}".to_string()) } else { None };
             // the other direction of the first sentence: a token that is authentic for Y but whose header
             // names X (compiled in or not) must be refused by Y's entry points
             {
                 let ky = domains::key_pool(*y)[if y.is_local() { 0 } else { 2.min(domains::key_pool(*y).len() - 1) }].clone();
                 let seed_y = seed_for(*y);
-                let case_y = IssueCase::new(*y, Layer::Core, &ky, seed_y.as_deref(), &msgs[mi], &footers[fi], &None);
+                let case_y = IssueCase::new(*y, Layer::Core, &ky, seed_y.as_deref(), &msgs[mi], &footers[fi], &ay);
                 if let Some(ty) = issue_with_control(&case_y, &mut acc) {
                     let named_x = format!("{}{}", x.header(), &ty[y.header().len()..]);
                     let mut pres = Presentation::of(&case_y, &named_x);
@@ -830,7 +891,7 @@ pub fn run_c07(tier: &str) -> i32 {
                     check("C07", "authentic-for-Y-but-header-names-X", &case_y, &ty, &pres, None, &mut acc);
                     // the same at the core layer with an expected-footer argument of the caller's own type whose
                     // conversion presents a text to an entry point of X on this thread (re-entrancy inside the call)
-                    if x.enabled() && li == 0 {
+                    if x.enabled() && li == 0 && ay.is_none() {
                         let kx_other = domains::key_pool(*x)[0].clone();
                         let junk_x = format!("{}AAAA", x.header());
                         let rf = crate::adapter::ReFooter { footer: footers[fi].as_deref(), other: *x, other_key: &kx_other.pk, other_text: &junk_x };
